@@ -96,6 +96,10 @@ const c12GroupID = "g"
 // more witnesses of the same thing after 200; each unit is its own process).
 var c12FailedCases atomic.Int64
 
+// c12EnumRecovery: VERIF_C12_ENUM_REC=0 switches the recovering instance of the
+// enumeration off (cost measurements only).
+var c12EnumRecovery = kit.EnvInt("VERIF_C12_ENUM_REC", 1) != 0
+
 // observations of the recovering instance (enum and seeded units)
 var c12RecCompared, c12RecServed, c12RecGroupsStarted, c12RecMulti atomic.Int64
 
@@ -133,6 +137,27 @@ type c12World struct {
 	recMulti                              int // groups started with >= 2 streams that have >= 2 subscribers or a shared member
 	recPrev                               uint64
 	recPrevOK                             bool
+	recLight                              bool
+}
+
+// c12ViewsIdentical: same epoch, members, recorded subscriptions, assignments
+// and assignedCount.
+func c12ViewsIdentical(a, b *c12View) bool {
+	if !c12SameAssignments(a, b) {
+		return false
+	}
+	for id, ma := range a.Members {
+		mb := b.Members[id]
+		if ma.Counter != mb.Counter || len(ma.Streams) != len(mb.Streams) {
+			return false
+		}
+		for i := range ma.Streams {
+			if ma.Streams[i] != mb.Streams[i] {
+				return false
+			}
+		}
+	}
+	return true
 }
 
 // withRecovery adds the recovering instance; it leaves recovery mode after the
@@ -304,11 +329,21 @@ func (w *c12World) checkRec(step int, live *c12View) {
 	}
 	v := c12Snapshot(in.g)
 	extra := func() string { return fmt.Sprintf(" | recovered instance (recovery mode up to step %d): %s", w.recUntil, v) }
-	if finds, _ := c12Check(v, &w.truth); len(finds) > 0 {
-		w.fail("recovery:"+finds[0].Class, fmt.Sprintf("recovered instance after %s: %s%s", w.ops[step], finds[0].What, extra()), step)
-		return
+	// A view identical to the live coordinator's (which the oracle has just
+	// judged at this step) needs no second evaluation of the same data.
+	identical := live != nil && step >= w.checkFrom && c12ViewsIdentical(live, v)
+	if !identical {
+		if finds, _ := c12Check(v, &w.truth); len(finds) > 0 {
+			w.fail("recovery:"+finds[0].Class, fmt.Sprintf("recovered instance after %s: %s%s", w.ops[step], finds[0].What, extra()), step)
+			return
+		}
 	}
+	probed := false
 	for id, m := range v.Members {
+		if w.recLight && identical && probed {
+			break // enumeration: one member per sequence (map order) is asked what the restarted coordinator serves
+		}
+		probed = true
 		got, ep, err := in.g.GetAssignments(id, v.Epoch)
 		if err != nil {
 			w.fail("recovery:not-served", fmt.Sprintf("recovered coordinator: GetAssignments(%s, current epoch %d) failed: %v%s", id, v.Epoch, err, extra()), step)
@@ -666,10 +701,11 @@ func (m c12Model) next(op c12Op) c12Model {
 func c12RunSequence(rep *kit.Report, parts []int32, ops []c12Op, checkFrom int) *c12World {
 	w := newC12World(rep, parts)
 	w.checkFrom = checkFrom
-	if len(ops) > 0 {
+	if len(ops) > 0 && c12EnumRecovery {
 		// third instance: the whole sequence is replayed in recovery mode and the
 		// group is started after the last operation
 		w.withRecovery(len(ops) - 1)
+		w.recLight = true
 	}
 	for _, op := range ops {
 		w.apply(op)
@@ -691,7 +727,7 @@ func TestVerifC12Enum(t *testing.T) {
 	for _, p := range passes {
 		desc = append(desc, fmt.Sprintf("length %d x %d partition-count vectors %v", p.Len, len(p.Vectors), p.Vectors))
 	}
-	rep.SetRule(fmt.Sprintf("small-scope enumeration on directly constructed consumerGroups: ALL valid sequences of the stated length (every shorter sequence is a prefix and is monitored on the way; sequences that run out of valid operations earlier are included) over {join(m, any non-empty subset of the existing streams), leave(m), expire(m) via the timer callback, streamDeleted(s)} for 4 members, 3 streams; passes: %s; epochs = Raft indexes as the FSM supplies them; after EVERY operation (each distinct prefix once) on 2 instances (coordinator / other server): exactly-one assignment per partition among subscribers, nothing assigned outside the subscription, assignedCount == real count, single-stream balance within one, GetAssignments == state, instance A == instance B (assignments and epoch); non-trivial = at some step >= 2 members shared a stream; distinct signature = (operation-kind shape, partition vector, max sharing) — the exact number of non-trivial sequences is in counts.nontrivial_sequences", strings.Join(desc, "; ")))
+	rep.SetRule(fmt.Sprintf("small-scope enumeration on directly constructed consumerGroups: ALL valid sequences of the stated length (every shorter sequence is a prefix and is monitored on the way; sequences that run out of valid operations earlier are included) over {join(m, any non-empty subset of the existing streams), leave(m), expire(m) via the timer callback, streamDeleted(s)} for 4 members, 3 streams; passes: %s; epochs = Raft indexes as the FSM supplies them; after EVERY operation (each distinct prefix once) on 2 instances (coordinator / other server): exactly-one assignment per partition among subscribers, nothing assigned outside the subscription, assignedCount == real count, single-stream balance within one, GetAssignments == state, instance A == instance B (assignments and epoch); at the end of every sequence a third instance with the coordinator's server id that applied the whole sequence in RECOVERY mode (newConsumerGroup(recovered=true), as the FSM does while replaying its log after a restart) is started with StartRecovered and must satisfy the same oracle, serve what it holds and equal instance A (assignments and epoch); non-trivial = at some step >= 2 members shared a stream; distinct signature = (operation-kind shape, partition vector, max sharing) — the exact number of non-trivial sequences is in counts.nontrivial_sequences", strings.Join(desc, "; ")))
 	rep.SetExhaustive(true)
 	rep.Assume("join requests name only existing streams and non-members, leave/expire only members (metadata leader preconditions checkJoin/checkLeaveConsumerGroupPreconditions); the group disappears with its last member and a later join creates a new one at epoch 0")
 	rep.Assume("a member is 'subscribed' to the streams it named when joining minus the streams deleted since; a member left without streams stays a member and is ignored by the balance clause")
@@ -846,7 +882,7 @@ func TestVerifC12Seeded(t *testing.T) {
 	rep := kit.NewReport("C12", "seeded")
 	defer rep.Write()
 	defer debug.SetGCPercent(debug.SetGCPercent(800))
-	rep.SetRule("seeded valid histories of 20..80 operations on directly constructed consumerGroups: up to 10 members, 7 streams, 1..9 partitions; join (subset sizes skewed small, sometimes all, sometimes a duplicate stream name in the request), leave, expire (timer callback), streamDeleted, stream re-created under the same name with another partition count; same per-operation monitors as the enumeration; additionally a third group is rebuilt from the member list the way a snapshot restore does and must be valid (whether it equals the live assignment is only counted); non-trivial = at some step >= 2 members shared a stream and the history contains a delete and a leave/expire; distinct = 64-bit hash of initial streams + full history text")
+	rep.SetRule("seeded valid histories of 20..80 operations on directly constructed consumerGroups: up to 10 members, 7 streams, 1..9 partitions; join (subset sizes skewed small, sometimes all, sometimes a duplicate stream name in the request), leave, expire (timer callback), streamDeleted, stream re-created under the same name with another partition count; same per-operation monitors as the enumeration; a recovering instance (coordinator's server id, created in recovery mode, same operations and epochs) leaves recovery mode through StartRecovered after a seeded step (every third history: after the last one) and is from then on checked after every operation like the others and compared with the live coordinator (assignments and epoch); additionally a third group is rebuilt from the member list the way a snapshot restore does and must be valid (whether it equals the live assignment is only counted); non-trivial = at some step >= 2 members shared a stream and the history contains a delete and a leave/expire; distinct = 64-bit hash of initial streams + full history text")
 	rep.Assume("same validity assumptions as the enumeration; a re-created stream is a new stream nobody is subscribed to")
 	root := kit.NewRNG(kit.Mix(kit.Seed(), 0xC12))
 	n := kit.Scale(20000, 300000)
